@@ -43,7 +43,8 @@ VARIABLES shape,      \* the program shape (constant after Init)
           ec,         \* goroutine -> 0 (before the poll) or index of the current effect
           ph,         \* goroutine -> "idle" | "in" (inside a blocking effect)
           fifo,       \* fifo -> [r, w] each "no" | "wait" | "open"
-          proc,       \* goroutine -> state of the child process it is waiting for: "none" | "run" | "int" | "dead"
+          proc,       \* goroutine -> state of the child process it is waiting for: "none" | "run" (started) |
+                      \*   "up" (signal handlers installed, greeting printed) | "int" (interrupt ignored) | "dead"
           seen,       \* main has observed the cancellation (at a poll, or in an interrupted read / exec)
           last        \* the observable event of the last step: <<goroutine, point>>
 vars == <<shape, cancelAt, steps, cancelled, returned, gst, pc, ec, ph, fifo, proc, seen, last>>
@@ -51,6 +52,7 @@ vars == <<shape, cancelAt, steps, cancelled, returned, gst, pc, ec, ph, fifo, pr
 \* ---------------------------------------------------------------- programs
 E(e, g, f, side, obeys) == [e |-> e, g |-> g, f |-> f, side |-> side, obeys |-> obeys]
 Read        == E("read", "", "", "", TRUE)
+ReadFrom(g) == E("readdata", g, "", "", TRUE)   \* read a line that the child process of goroutine g prints once it is up
 Exec(ob)    == E("exec", "", "", "", ob)
 Spawn(g)    == E("spawn", g, "", "", TRUE)
 WaitJob(g)  == E("waitjob", g, "", "", TRUE)
@@ -75,8 +77,9 @@ Shapes == {
      <<S(<<Read>>)>>, NoG),
   Sh("sleep",           "sleep 100",
      <<S(<<Exec(TRUE)>>)>>, NoG),
-  Sh("sleep-noint",     "sh -c 'trap \"\" INT; i=0; while [ $i -lt 20000000 ]; do i=$((i+1)); done'",
-     <<S(<<Exec(FALSE)>>)>>, NoG),
+  \* the child ignores SIGINT, says so on its stdout, and then computes for a long (but finite) time
+  Sh("pipe-noint-read", "sh -c 'trap \"\" INT; echo up; i=0; while [ $i -lt 20000000 ]; do i=$((i+1)); done' | read x",
+     <<S(<<Spawn("j1"), NPoll, ReadFrom("j1"), PipeJoin("j1")>>)>>, G("pipe", <<S(<<Exec(FALSE)>>)>>)),
   Sh("bg-loop-wait",    "while :; do :; done & wait",
      <<S(<<Spawn("j1")>>), S(<<WaitJob("j1")>>)>>, G("bg", <<Loop>>)),
   Sh("bg-read-wait",    "read x & wait",
@@ -195,13 +198,27 @@ ReadExit(g) ==                                         \* nobody ever writes: on
   /\ ph' = [ph EXCEPT ![g] = "idle"] /\ Advance(g) /\ See(g)
   /\ UNCHANGED <<shape, cancelAt, cancelled, returned, gst, fifo, proc>>
 
+ReadDataEnter(g) ==
+  /\ gst[g] = "run" /\ InEff(g) /\ Eff(g).e = "readdata" /\ ph[g] = "idle" /\ Obs(g, "read.before")
+  /\ ph' = [ph EXCEPT ![g] = "in"]
+  /\ UNCHANGED <<shape, cancelAt, cancelled, returned, gst, pc, ec, fifo, proc, seen>>
+ReadDataExit(g) ==                                     \* the line arrives (or the stage died: EOF), or the deadline set on Cancel
+  /\ gst[g] = "run" /\ InEff(g) /\ Eff(g).e = "readdata" /\ ph[g] = "in"
+  /\ cancelled \/ proc[Eff(g).g] \in {"up", "int", "dead"} \/ gst[Eff(g).g] = "done"
+  /\ Obs(g, "read.after")
+  /\ ph' = [ph EXCEPT ![g] = "idle"] /\ Advance(g) /\ See(g)
+  /\ UNCHANGED <<shape, cancelAt, cancelled, returned, gst, fifo, proc>>
+
 ExecEnter(g) ==
   /\ gst[g] = "run" /\ InEff(g) /\ Eff(g).e = "exec" /\ ph[g] = "idle" /\ Obs(g, "exec.before")
   /\ ph' = [ph EXCEPT ![g] = "in"] /\ proc' = [proc EXCEPT ![g] = "run"]
   /\ UNCHANGED <<shape, cancelAt, cancelled, returned, gst, pc, ec, fifo, seen>>
-Interrupt(g) ==                                        \* environment: Cancel sends os.Interrupt to the child
-  /\ cancelled /\ proc[g] = "run" /\ Silent("env")
-  /\ proc' = [proc EXCEPT ![g] = IF Eff(g).obeys THEN "dead" ELSE "int"]
+Ready(g) ==                                            \* environment: the child has started up
+  /\ proc[g] = "run" /\ Silent("env") /\ proc' = [proc EXCEPT ![g] = "up"]
+  /\ UNCHANGED <<shape, cancelAt, cancelled, returned, gst, pc, ec, ph, fifo, seen>>
+Interrupt(g) ==                                        \* environment: Cancel sends os.Interrupt to the child;
+  /\ cancelled /\ proc[g] \in {"run", "up"} /\ Silent("env")   \* only a child that is up can ignore it
+  /\ proc' = [proc EXCEPT ![g] = IF Eff(g).obeys \/ proc[g] = "run" THEN "dead" ELSE "int"]
   /\ UNCHANGED <<shape, cancelAt, cancelled, returned, gst, pc, ec, ph, fifo, seen>>
 Kill(g) ==                                             \* environment: killTimeout later the child is killed
   /\ proc[g] = "int" /\ Silent("env") /\ proc' = [proc EXCEPT ![g] = "dead"]
@@ -279,10 +296,10 @@ IdlePoll(g) ==
   /\ UNCHANGED <<shape, cancelAt, cancelled, returned, gst, ph, fifo, proc>>
 
 GStep(g) == \/ Start(g) \/ IdlePoll(g) \/ Poll(g) \/ AbandonStmt(g) \/ NestedPoll(g) \/ LoopPoll(g) \/ LoopExit(g)
-            \/ SpawnStep(g) \/ ReadEnter(g) \/ ReadExit(g)
+            \/ SpawnStep(g) \/ ReadEnter(g) \/ ReadExit(g) \/ ReadDataEnter(g) \/ ReadDataExit(g)
             \/ ExecEnter(g) \/ ExecExit(g) \/ WaitEnter(g) \/ WaitExit(g) \/ WaitAbort(g) \/ JoinEnter(g) \/ JoinExit(g)
             \/ FifoEnter(g) \/ FifoExit(g) \/ FifoAbort(g) \/ End(g)
-Env == \E g \in Gs : Interrupt(g) \/ Kill(g)
+Env == \E g \in Gs : Ready(g) \/ Interrupt(g) \/ Kill(g)
 Next == Cancel \/ Env \/ \E g \in Gs : GStep(g)
 
 InitWith(sh) ==
@@ -310,7 +327,7 @@ TypeOK == /\ \A g \in Gs : gst[g] \in {"none", "new", "run", "done"} /\ ph[g] \i
           /\ steps \in 0..(MaxCancel + 1)
           /\ returned => gst["main"] = "done"
 \* a wait can only return after its job has ended, an open only with a peer (or by the contract's abort)
-WakeSound == /\ \A g \in Gs : (proc[g] # "none") => (gst[g] = "run" /\ ph[g] = "in")
+WakeSound == /\ \A g \in Gs : (proc[g] # "none") => (gst[g] = "run" /\ ph[g] = "in" /\ Eff(g).e = "exec")
              /\ \A f \in DOMAIN fifo : (fifo[f].r = "open") => (fifo[f].w \in {"wait", "open"})
 
 \* "... makes Run return ... with an error": Run reports an error iff main observed the cancellation.
